@@ -174,6 +174,9 @@ def judge_prog(case, impl, model, meta, stats):
         sub = {"op": "literal_check", "src": case["src"], "lits": [], "texts": [text]}
         if r["parse"].startswith("panic@"):
             fs.append(Failure("oracle", "parse-arg-panics@" + r["parse"][6:].split(": ")[0].replace("/repo/", ""), f"parse_arg panics on {text!r}", sub, "ok or error", r["parse"]))
+        elif v == "REJECT":
+            if r["parse"] == "ok":
+                fs.append(Failure("oracle", "parse-arg-accepts-number-out-of-range", f"parse_arg({text!r}) is accepted for {gt.ty_str(t)} (bits {r.get('bits')}): a number outside the type must be an error, not another value", sub, "error", r))
         elif v is not None:
             if r["parse"] != "ok" and "()" in text and text != "()" and "[]" not in text:
                 fs.append(Failure("oracle", "text-roundtrip:nested-unit-literal", f"parse_arg({text!r}) = {r}", sub, gt.encode(t, v), r))
@@ -213,6 +216,30 @@ def run(ctx):
         cid = len(cases)
         cases.append({"id": cid, "op": "literal_check", "src": src, "lits": [l for l, _, _ in lits], "texts": [x for x, _ in texts]})
         metas[cid] = {"ty": t, "lits": lits, "texts": texts}
+    # numbers written without suffix around the ends of every integer type and of the scanner's own 64-bit range:
+    # inside the type they are that value, outside they are an error (never another value)
+    for tn in gt.INTS:
+        lo, hi = gt.int_range(tn)
+        pts = sorted({lo - 2, lo - 1, lo, lo + 1, -1, 0, 1, hi - 1, hi, hi + 1, hi + 2, 2 ** 31, 2 ** 32 - 1, 2 ** 32, 2 ** 63 - 1, 2 ** 63,
+                      2 ** 63 + 1, 2 ** 64 - 2, 2 ** 64 - 1, -2 ** 63, -2 ** 63 + 1, -2 ** 31 - 1})
+        for shape in ("plain", "tuple", "array"):
+            if shape == "plain":
+                t = {"k": "int", "t": tn}
+                wrap = lambda x: x
+                val = lambda n: n
+            elif shape == "tuple":
+                t = {"k": "tuple", "ts": [{"k": "bool"}, {"k": "int", "t": tn}]}
+                wrap = lambda x: f"(true, {x})"
+                val = lambda n: (True, n)
+            else:
+                t = {"k": "array", "elem": {"k": "int", "t": tn}, "n": 2}
+                wrap = lambda x: f"[1, {x}]"
+                val = lambda n: [1, n]
+            src = f"pub fn main(x: {gt.ty_str(t)}, _pad: bool) -> {gt.ty_str(t)} {{ x }}\n"
+            texts = [(wrap(str(n)), val(n) if lo <= n <= hi else "REJECT") for n in pts]
+            cid = len(cases)
+            cases.append({"id": cid, "op": "literal_check", "src": src, "lits": [], "texts": [x for x, _ in texts]})
+            metas[cid] = {"ty": t, "lits": [], "texts": texts}
     # ranges around the largest value of the element type, every unsigned width (u64 cannot overflow a u64 bound)
     for tn in ("u8", "u16", "u32", "usize", "u64"):
         for n in (0, 1, 2, 3, 5):
